@@ -146,7 +146,8 @@ func setString(m map[string]bool) string {
 
 func runC36(c *Ctx) {
 	lastExpiringCovers(c, "L1-last-expiring-covers")
-	gT := "(*private/trust.SignerGen)"
+	keyIDAgreement(c, "K1-key-id-agreement")
+	gT :="(*private/trust.SignerGen)"
 	if v := c.View(gT + ".bestForKey"); v != nil {
 		fn := v.Fn
 		e := NewE1(c, fn)
